@@ -105,19 +105,26 @@ ALWAYS = ["dummy", "temp_unique", "remapped", "drop", "missing_dims", "indexers"
 
 
 @st.composite
-def renaming_for(draw, toks, reserved=(), squeeze=True):
+def renaming_for(draw, toks, reserved=(), squeeze=True, themed=False):
     """toks: {token: namespace}.  Names are unique within a namespace; across namespaces the same name may be (and
     regularly is) handed out twice: an axis called like one of its dimensions, a ufunc dummy name equal to the name
     of a real axis (possibly of *another* axis of the same call)."""
     words = harvested()
     used = {"axis": list(reserved), "ds": [], "dummy": []}
     mapping = {}
+    # now and then every axis of the grid gets a name built around a position word (tests of the kind "do all keys look like
+    # positions?" only trip when all of them do)
+    theme = draw(st.sampled_from([None, None, None, None, None, "prefix", "suffix", "infix"] + (["prefix", "prefix", "suffix", "infix"] if themed else [])))
     for t, space in toks.items():
         names = used[space]
         others = [n for sp, lst in used.items() if sp != space for n in lst if n not in names]
         kind = draw(st.sampled_from(["letter", "letter", "embedded", "case", "harvest", "harvest-suffix", "derived", "always",
                                      "other-namespace", "other-namespace"]))
-        if kind == "other-namespace" and others:
+        if theme and space == "axis":
+            w = draw(st.sampled_from(POSITION_WORDS))
+            tail = draw(st.sampled_from(["_x", "ish", "1", "line", "X", "_"]))
+            cand = {"prefix": w + tail, "suffix": draw(st.sampled_from(["x_", "a", "g"])) + w, "infix": "a" + w + tail}[theme]
+        elif kind == "other-namespace" and others:
             cand = draw(st.sampled_from(others))
         elif kind == "letter" or kind == "other-namespace":
             cand = draw(st.sampled_from(LETTERS))
@@ -179,7 +186,8 @@ def strategy_impl(draw, tier):
     toks = scen_gen.tokens_of(sc)
     # SGRID axes are always called X, Y, Z by the convention: those are constants of the scenario, not renamable tokens
     reserved = [a for a in ("X", "Y", "Z") if a not in toks] if sc.get("family") == "autoparse" else []
-    return {"scenario": sc, "renaming": draw(renaming_for(toks, reserved, squeeze=sc.get("family") == "faces")), "spaces": toks}
+    return {"scenario": sc, "renaming": draw(renaming_for(toks, reserved, squeeze=sc.get("family") == "faces",
+                                                          themed=sc.get("family") == "default-shifts")), "spaces": toks}
 
 
 def strategy(tier):
